@@ -184,6 +184,9 @@ func VerifyIPRestrictedX509CertIP(userCert *x509.Certificate, remoteAddr string)
 	if err != nil {
 		return false, err
 	}
+	// The whole extension must be well formed: do not admit on a matching
+	// netblock that is followed by a malformed one.
+	matched := false
 	for _, addressList := range ipAddressFamilyList {
 		if !bytes.Equal(addressList.AddressFamily, ipV4FamilyEncoding) {
 			continue
@@ -194,11 +197,11 @@ func VerifyIPRestrictedX509CertIP(userCert *x509.Certificate, remoteAddr string)
 				return false, err
 			}
 			if decoded.Contains(remoteIP) {
-				return true, nil
+				matched = true
 			}
 		}
 	}
-	return false, nil
+	return matched, nil
 }
 
 func ExtractIPNetsFromIPRestrictedX509(userCert *x509.Certificate) ([]net.IPNet, error) {
